@@ -17,3 +17,5 @@
 #define fwrite   verif_fwrite
 #define sprintf  verif_sprintf
 #define snprintf verif_snprintf
+#define vsnprintf verif_vsnprintf
+#define vsprintf verif_vsprintf
